@@ -220,6 +220,7 @@ def check_fresh(ctx):
                 if any(ctor_of_stateful(x) for x in ast.walk(d)):
                     ctx.ob('C20.fresh-instances', f'default-arg:{fn.name}:{norm(d)[:60]}', False,
                            f'{fn.name}: a stateful object is created once as a default argument', file=f, line=fn.lineno)
+    check_mutable_defaults(ctx, files_of(ctx), 'C20.fresh-instances')
     ctx.setcount('module_level_statements', n_mod)
     # ... and no object built by a LIBRARY constructor is kept in a module global / class attribute / default argument and used at call time: such objects
     # (sa.MetaData(), a lock-free cache, a defaultdict) are registries that every call writes into.  Immutable factories are listed with their reason.
@@ -278,6 +279,95 @@ def check_fresh(ctx):
 CATALOG_ATTRS = ('predictor_info', 'integrations')
 CATALOG_PARAMS = ('integrations', 'predictor_metadata')
 WRITERS = {'update', 'pop', 'setdefault', 'clear', 'popitem', 'append', 'extend', 'remove', 'insert', '__setitem__'}
+
+
+_PURE_READERS = {'len', 'list', 'tuple', 'sorted', 'str', 'repr', 'iter', 'enumerate', 'isinstance', 'dict', 'set', 'frozenset', 'bool', 'any', 'all', 'sum', 'min', 'max',
+                 'zip', 'map', 'filter', 'reversed', 'print', 'id', 'type', 'copy.copy', 'copy.deepcopy', 'copy', 'deepcopy', 'str.join', 'range'}
+_MUTATORS = {'append', 'extend', 'insert', 'pop', 'remove', 'clear', 'sort', 'reverse', 'update', 'setdefault', 'popitem', 'add', 'discard', '__setitem__', '__delitem__'}
+
+
+def _mutable_display(d):
+    return isinstance(d, (ast.List, ast.Dict, ast.Set, ast.ListComp, ast.DictComp, ast.SetComp)) or (
+        isinstance(d, ast.Call) and dotted(d.func) in ('list', 'dict', 'set', 'bytearray', 'collections.defaultdict', 'defaultdict', 'OrderedDict', 'collections.OrderedDict',
+                                                         'collections.deque', 'deque'))
+
+
+def _default_escapes(fn, pname):
+    """how the object bound to parameter `pname` is kept or changed by the function (text), or None: it is only read"""
+    names = {pname}
+    changed = True
+    while changed:          # local aliases: y = x / y = x or [...]
+        changed = False
+        for n in ast.walk(fn):
+            if isinstance(n, ast.Assign) and len(n.targets) == 1 and isinstance(n.targets[0], ast.Name) and n.targets[0].id not in names:
+                v = n.value
+                vs = [v] + (list(v.values) if isinstance(v, ast.BoolOp) else []) + ([v.body, v.orelse] if isinstance(v, ast.IfExp) else [])
+                if any(isinstance(x, ast.Name) and x.id in names for x in vs):
+                    names.add(n.targets[0].id)
+                    changed = True
+
+    def is_it(e):
+        return isinstance(e, ast.Name) and e.id in names
+
+    def carries(e):
+        """the object itself (not a copy) is part of the value of e"""
+        if is_it(e):
+            return True
+        if isinstance(e, (ast.List, ast.Tuple, ast.Set)):
+            return any(carries(x) for x in e.elts)
+        if isinstance(e, ast.Dict):
+            return any(carries(x) for x in e.values if x is not None)
+        if isinstance(e, ast.BoolOp):
+            return any(carries(x) for x in e.values)
+        if isinstance(e, ast.IfExp):
+            return carries(e.body) or carries(e.orelse)
+        if isinstance(e, ast.Starred):
+            return False
+        return False
+    for n in ast.walk(fn):
+        if isinstance(n, (ast.Assign, ast.AnnAssign)) and n.value is not None and carries(n.value):
+            tgs = n.targets if isinstance(n, ast.Assign) else [n.target]
+            for t in tgs:
+                if isinstance(t, (ast.Attribute, ast.Subscript)):
+                    return f'stores it in `{norm(t)}`'
+        if isinstance(n, ast.AugAssign) and is_it(n.target):
+            return f'changes it in place (`{norm(n)[:50]}`)'
+        if isinstance(n, (ast.Subscript, ast.Attribute)) and isinstance(n.ctx, (ast.Store, ast.Del)) and is_it(n.value):
+            return f'changes it in place (`{norm(n)[:50]}`)'
+        if isinstance(n, (ast.Return, ast.Yield)) and n.value is not None and carries(n.value):
+            return 'returns it'
+        if isinstance(n, ast.Call):
+            if isinstance(n.func, ast.Attribute) and is_it(n.func.value) and n.func.attr in _MUTATORS:
+                return f'changes it in place (`{norm(n)[:50]}`)'
+            if (dotted(n.func) or '') not in _PURE_READERS and not (isinstance(n.func, ast.Attribute) and is_it(n.func.value)):
+                if any(carries(x) for x in n.args) or any(carries(k.value) for k in n.keywords):
+                    return f'hands it on to `{norm(n.func)[:40]}(...)`'
+    return None
+
+
+def check_mutable_defaults(ctx, files, rule):
+    """a mutable default ([] / {} / set() ...) is ONE object for all calls: it may be read, but not kept (stored in an object, returned, handed on) or changed"""
+    n_mdef = 0
+    for f in files:
+        tree = ctx.src.tree(f)
+        for fn in [n for n in ast.walk(tree) if isinstance(n, ast.FunctionDef)]:
+            pos = fn.args.posonlyargs + fn.args.args
+            pairs = list(zip(pos[len(pos) - len(fn.args.defaults):], fn.args.defaults)) + [(a, d) for a, d in zip(fn.args.kwonlyargs, fn.args.kw_defaults) if d is not None]
+            for a, d in pairs:
+                if not _mutable_display(d):
+                    continue
+                n_mdef += 1
+                how = _default_escapes(fn, a.arg)
+                ctx.ob(rule, f'mutable-default:{f.split("/")[-1]}:{fn.name}:{a.arg}', how is None,
+                       f'{fn.name}: the default `{a.arg}={norm(d)}` is one object shared by every call, and the function {how}: what one call puts into it is seen by '
+                       f'the next call (a later plan contains the steps of an earlier one)', file=f, line=fn.lineno)
+    ctx.setcount('mutable_defaults', n_mdef)
+    ctx.ob(rule, 'mutable-default:all', True, '')
+    # the rule has no instance today: a built-in positive example keeps it honest
+    demo = ast.parse('class K:\n    def __init__(self, values, step=[], flag=False):\n        self.step = step\n    def ok(self, xs=[]):\n        return len(xs)\n')
+    k_init, k_ok = demo.body[0].body
+    ctx.need(_mutable_display(k_init.args.defaults[0]) and _default_escapes(k_init, 'step') is not None and _default_escapes(k_ok, 'xs') is None,
+             'self-test of the mutable-default rule failed')
 
 
 def check_caller_objects(ctx):
